@@ -12,8 +12,11 @@
        ESRCH everywhere; ENOENT too where process data is read through /proc (Solaris, AIX);
        EPERM/EACCES everywhere, plus winerror 5 (ERROR_ACCESS_DENIED) and 1314
        (ERROR_PRIVILEGE_NOT_HELD) on Windows; Windows has no zombies.
-     What "still listed as a zombie" means is the probe the platform has: BSD/macOS read the
-     status slot of the one-shot record; Solaris/AIX can only ask "does the pid still exist".
+     "Still listed as a zombie" is a fact about the process, on every platform that has zombies:
+     its status in the process table is the zombie status (`Env.state = .zombie`), whatever
+     probe the platform module happens to use. (Rounds 1–2 had copied the Solaris/AIX probe —
+     "the pid still exists" — into this definition; round 3 removed that: see
+     `knownZombieDeviation` and finding C20-sunos-aix-exists-means-zombie.)
   2. Recoverable situations: places where a method is *documented* (in the code's comments /
      psutil's docs) to carry on instead of failing; there the method may also return a value.
   3. Record layout: which slot of the native record is *named for* which namedtuple field,
@@ -50,13 +53,22 @@ def kind (f : Family) (e : Err) : Kind :=
        | .ESRCH => .noSuchProcess
        | _ => .other)
 
-/-- does the platform's probe still see the pid (as a zombie, as far as it can tell)? -/
-def probeSeesZombie (f : Family) (env : Env) : Bool :=
+/-- is the pid still listed as a zombie? (the statement's words; Windows has no zombies).
+    The same on every platform: it does NOT depend on which probe the module uses. -/
+def listedAsZombie (f : Family) (env : Env) : Bool :=
   match f with
-  | .bsd | .osx => env.state == .zombie
-  | .sunos => env.pid == 0 || env.state != .gone      -- kill(pid, 0); pid 0 is never signalled
-  | .aix => env.state != .gone                        -- /proc/<pid>/psinfo
   | .windows => false
+  | _ => env.state == .zombie
+
+/-- KNOWN DEVIATION (finding C20-sunos-aix-exists-means-zombie): the region in which the Solaris
+    and AIX decorators report ZombieProcess for a process that is NOT a zombie, because their only
+    probe is "does the pid still exist" (`pid_exists`; Solaris: PID 0 always "exists"): a
+    "no such process" failure while the process is alive — or, on Solaris, on PID 0 whatever its
+    state. In this region the code's outcome is `.zombie pid true`, the contract cell is
+    `.nsp pid true`. Not part of the contract: only used to state the `_partial` theorems. -/
+def knownZombieDeviation (f : Family) (e : Err) (env : Env) : Bool :=
+  (f == .sunos || f == .aix) && kind f e == .noSuchProcess &&
+    (env.state == .alive || (f == .sunos && env.pid == 0 && env.state == .gone))
 
 /-- Native process-status codes that mean "zombie" on each platform (sys/proc.h of the platform;
     OpenBSD: `SZOMB` is declared but unused since 5.x, a real zombie is `SDEAD` — both are
@@ -82,7 +94,7 @@ def pid0Exception (f : Family) : Bool := f == .bsd || f == .sunos
 /-- the cell of the contract table -/
 def contract (f : Family) (e : Err) (env : Env) : Outcome :=
   match kind f e with
-  | .noSuchProcess => if probeSeesZombie f env then .zombie env.pid true else .nsp env.pid true
+  | .noSuchProcess => if listedAsZombie f env then .zombie env.pid true else .nsp env.pid true
   | .permission => .ad env.pid true
   | .other => if pid0Exception f && env.pid == 0 && env.pid0Listed then .ad env.pid true else .raw e
 
@@ -156,7 +168,7 @@ def allowed (p : Platform) (meth : String) (r : Recover) (e : Err) (env : Env) (
      e.errno == .ENOENT && (o == .value || o == contract f ⟨.ENOENT, none⟩ env)
    | .netbsdEinval =>
      e.errno == .EINVAL &&
-       (o == (if probeSeesZombie f env then .zombie env.pid true
+       (o == (if listedAsZombie f env then .zombie env.pid true
               else if env.pid != 0 && env.state == .gone then .nsp env.pid true else .value))
    | .procfsEnoent => e.errno == .ENOENT && o == contract f ⟨.ESRCH, none⟩ env
    | .goneMeansNsp => env.state == .gone && o == .nsp env.pid true)
@@ -369,9 +381,12 @@ def documentedNtuple : List (String × List String) :=
   context switches, `ru_inblock` / `ru_oublock` block reads / writes, `pr_rssize` resident size,
   `pr_size` image size, `pr_nlwp` number of lwps, `pti_csw` context switches, `HandleCount`, …).
   Expressions are normalised by the translator: comments and one leading cast dropped, no blanks.
-  ODDITY kept as it is in the C source (native layer, outside the statement; characterised by
-  `C20_native_saved_gid_characterisation`): on the three BSDs the slot the Python side calls
-  `saved_gid` is filled from the saved *uid* member (`ki_svuid` / `p_svuid`). -/
+  The table states the INTENDED member for every slot. One slot of the C source differs from it
+  (finding C20-bsd-saved-gid, PENDING(fixes/C20-bsd-saved-gid.diff)): on the three BSDs the slot
+  the Python side calls `saved_gid` is filled from the saved *uid* member (`ki_svuid` / `p_svuid`)
+  instead of the saved gid member (`ki_svgid` of FreeBSD's `struct kinfo_proc`, `p_svgid` of
+  OpenBSD's `struct kinfo_proc` and NetBSD's `struct kinfo_proc2`) — `gids().saved` is the saved
+  uid there. macOS reads `e_pcred.p_svgid`. -/
 
 /-- (slot map, identity) → for every slot name the C expression `Py_BuildValue` is given at that slot -/
 def slotCExpr : List ((String × String) × List (String × String)) :=
@@ -393,7 +408,7 @@ def slotCExpr : List ((String × String) × List (String × String)) :=
         ("saved_uid", "kp.ki_svuid"),
         ("real_gid", "kp.ki_rgid"),
         ("effective_gid", "kp.ki_groups[0]"),
-        ("saved_gid", "kp.ki_svuid"),
+        ("saved_gid", "kp.ki_svgid"),
         ("ttynr", "kp.ki_tdev"),
         ("create_time", "PSUTIL_TV2DOUBLE(kp.ki_start)"),
         ("ctx_switches_vol", "kp.ki_rusage.ru_nvcsw"),
@@ -419,7 +434,7 @@ def slotCExpr : List ((String × String) × List (String × String)) :=
         ("saved_uid", "kp.p_svuid"),
         ("real_gid", "kp.p_rgid"),
         ("effective_gid", "kp.p_groups[0]"),
-        ("saved_gid", "kp.p_svuid"),
+        ("saved_gid", "kp.p_svgid"),
         ("ttynr", "kp.p_tdev"),
         ("create_time", "PSUTIL_KPT2DOUBLE(kp.p_ustart)"),
         ("ctx_switches_vol", "kp.p_uru_nvcsw"),
@@ -445,7 +460,7 @@ def slotCExpr : List ((String × String) × List (String × String)) :=
         ("saved_uid", "kp.p_svuid"),
         ("real_gid", "kp.p_rgid"),
         ("effective_gid", "kp.p_groups[0]"),
-        ("saved_gid", "kp.p_svuid"),
+        ("saved_gid", "kp.p_svgid"),
         ("ttynr", "kp.p_tdev"),
         ("create_time", "PSUTIL_KPT2DOUBLE(kp.p_ustart)"),
         ("ctx_switches_vol", "kp.p_uru_nvcsw"),
@@ -569,6 +584,12 @@ def macPadded (sep : Char) (a : List Char) : List Char :=
     is set, every other bit is the address's -/
 def IsBroadcast (addr plen b : Nat) : Prop :=
   ∀ i, b.testBit i = (decide (i < 32 - plen) || addr.testBit i)
+
+/-- `b` is the IPv6 "broadcast" address (`ipaddress.IPv6Network(...).broadcast_address`: the
+    highest address of the network) of `addr/plen`: the low `128 - plen` bits set, the others
+    the address's -/
+def IsBroadcast6 (addr plen b : Nat) : Prop :=
+  ∀ i, b.testBit i = (decide (i < 128 - plen) || addr.testBit i)
 
 /-! ## 5. The front end's platform-conditional branches -/
 
